@@ -290,7 +290,8 @@ class C01(Property):
         'non-ASCII digits (accepted by \\d and int()) and non-ASCII whitespace inside the charge number: the model rejects them, Python accepts them; excluded from generation',
         'results are fresh objects (no aliasing between two parses, no effect of mutating a returned dict or of Substance(..., charge=q) on later parses): history cases, oracle only',
         'uniqueness of the string-level denotation Den (that a text has only one reading) is not proved; accepted_value_sound gives the reading the parser used',
-        'the exception class (ParseException vs ValueError) is compared as accept/reject only',
+        'the exception class (ParseException vs ValueError) of formula_to_composition is compared as accept/reject only (for direct _get_charge calls it is compared exactly)',
+        '_get_leading_integer line 353 (raise on two matches of ^\\d+) is dead code: no input reaches it; not modelled',
     )
     assumptions = ('pyparsing (ordered choice, whitespace skipping, greedy OneOrMore, parse actions) is modelled as a recursive-descent parser and tied by this correspondence only',
                    'outside the modelled domain, excluded from generation: non-ASCII digits, non-ASCII whitespace inside the charge number (accepted by Python int())',
